@@ -99,6 +99,8 @@ def replay(case):
                     a, b = [x[1:] for x in a], [x[1:] for x in b]
                 same = same and ((a == b) if ordered else (sorted(a) == sorted(b))) and r1["t"]["cols"] == r["t"]["cols"]
             tr["idem"] = [False, bool(same)]
+            # diagnostic (F30): the executions differ in the ORDER of the columns only
+            tr["idem_cols_differ"] = bool(any(r1["t"]["cols"] != r["t"]["cols"] and sorted(r1["t"]["cols"]) == sorted(r["t"]["cols"]) for r in (r1b, r2)))
         tr["reopt_same_plan"] = (o2._name == name0)
     except Exception as ex:
         tr["idem"] = [True, False]
@@ -242,7 +244,7 @@ def run(tier="quick", seed=0, replay_path=None):
         if not tr["unopt_err"] and tr["steps"] > 0:
             chk.note_nontrivial(common.case_hash(c["q"]))
         if tr["tid"] in rejects:
-            chk.fail(rejects[tr["tid"]], {"q": c["q"], "sc": c["sc"], "dseed": c["dseed"], "np1": c["np1"], "np2": c["np2"], "ops": rel.ops_of(c["q"]), "errmsg": tr.get("msg", "")},
+            chk.fail(rejects[tr["tid"]], {"q": c["q"], "sc": c["sc"], "dseed": c["dseed"], "np1": c["np1"], "np2": c["np2"], "ops": rel.ops_of(c["q"]), "errmsg": tr.get("msg", ""), "idem_cols_differ": bool(tr.get("idem_cols_differ"))},
                      {"msg": tr.get("msg", ""), "calls": tr["calls"], "steps": tr["steps"], "names": tr["names"]})
     chk.rule = ("programs = TLC-generated queries (QueryGen focus general and filter; all depth<=1, seeded samples of depth 2, simulated deeper; every program ending in head after >= 2 "
                 "operators and every conjunction filter over a merge is included); per program: hook-recorded simplify passes / accepted rewrites of optimize(), its name over 3 in-process "
